@@ -2,7 +2,9 @@ package metax
 
 import (
 	"fmt"
+	"reflect"
 	"sort"
+	"strings"
 
 	"github.com/openGemini/openGemini/lib/util/lifted/influx/meta"
 )
@@ -17,8 +19,10 @@ import (
 //     the earlier holder went through MarkMeasurementDelete + DropMeasurement;
 //   - the per-name version counter (RetentionPolicyInfo.MstVersions) never goes down and never
 //     loses an entry while the policy lives, and stays at or above every version handed out;
-//   - numeric ids (measurement, shard group, shard, index group, index, data node) are never
-//     handed out twice and new ones lie above every id of their kind seen before.
+//   - numeric ids (measurement, shard group, shard, index group, index, node, stream) are never
+//     handed out twice and new ones lie above every id of their kind seen before;
+//   - no `Max…` counter of the catalogue (ids, subscription / continuous-query change counters,
+//     event op ids, down-sample ids) ever goes back.
 //
 // It observes the real catalogue after every step; nothing is taken from the command but its
 // kind (to tell a rename from drop + create, and the commands that replace the whole catalogue).
@@ -43,11 +47,12 @@ type histPolicy struct {
 }
 
 type histView struct {
-	dbs map[string]map[string]*histPolicy // db key -> policy key -> contents
-	ids map[string]map[uint64]bool        // kind -> ids in use
+	dbs      map[string]map[string]*histPolicy // db key -> policy key -> contents
+	ids      map[string]map[uint64]bool        // kind -> ids in use
+	counters map[string]uint64                 // every `Max…` counter of meta.Data
 }
 
-var idKinds = []string{"mst", "sg", "shard", "ig", "index", "node"}
+var idKinds = []string{"mst", "sg", "shard", "ig", "index", "node", "stream"}
 
 func NewHistory() *History {
 	h := &History{}
@@ -115,6 +120,18 @@ func viewOf(d *meta.Data) *histView {
 	}
 	for _, n := range d.SqlNodes {
 		v.ids["node"][n.ID] = true
+	}
+	for _, st := range d.Streams {
+		v.ids["stream"][st.ID] = true
+	}
+	// every id / change counter of the catalogue (MaxNodeID … MaxCQChangeID)
+	v.counters = map[string]uint64{}
+	rv := reflect.ValueOf(d).Elem()
+	for i := 0; i < rv.NumField(); i++ {
+		f := rv.Type().Field(i)
+		if strings.HasPrefix(f.Name, "Max") && f.Type.Kind() == reflect.Uint64 {
+			v.counters[f.Name] = rv.Field(i).Uint()
+		}
 	}
 	for dbk, db := range d.Databases {
 		rps := map[string]*histPolicy{}
@@ -257,6 +274,12 @@ func (h *History) Observe(d *meta.Data, kind string) []HistFinding {
 					h.vers[key][o] = v
 				}
 			}
+		}
+	}
+	// ---- counters never go back ----
+	for _, name := range sortedKeys(prev.counters) {
+		if cur.counters[name] < prev.counters[name] {
+			add("counter_regressed", "%s went from %d to %d", name, prev.counters[name], cur.counters[name])
 		}
 	}
 	// ---- numeric ids ----
